@@ -136,7 +136,7 @@ def run(res, proof):
         if not exd and end:
             special.append(st)
     rng.shuffle(special)
-    structs = structs[:60 if quick else 600] + ['(.+)+.', '((+))+(+)', '.+.+.', '(+)'] + special[:12 if quick else 200]
+    structs = structs[:60 if quick else 300] + ['(.+)+.', '((+))+(+)', '.+.+.', '(+)'] + special[:12 if quick else 60]
     # 5 to 8 strands: a single assignment can then move the representation by more than half a cycle but not by n-1
     many = []
     for ns in (5, 6, 7, 8):
@@ -178,7 +178,7 @@ def run(res, proof):
         for op in ops:
             run_seq(s, names, [op])
         pairs = list(itertools.product(ops, repeat=2))
-        for combo in (rng.sample(pairs, 40) if quick else pairs):
+        for combo in rng.sample(pairs, 40 if quick else 250):
             run_seq(s, names, list(combo))
         for q in ['q\th2\t%s\t' % v for v in ('pair_table', 'strand_table', 'exterior', 'enclosed', 'rotate', 'is_connected', 'size')] + ops[-5:]:
             for v in (1, -1, 2):
